@@ -946,6 +946,9 @@ static size_t ZDICT_addEntropyTablesFromBuffer_advanced(
     U32 const notificationLevel = params.notificationLevel;
     size_t hSize = 8;
 
+    /* the start repcodes must point inside the content, otherwise no loader accepts the dictionary */
+    if (dictContentSize < ZDICT_maxRep(repStartValue)) return ERROR(dictionaryCreation_failed);
+
     /* calculate entropy tables */
     DISPLAYLEVEL(2, "\r%70s\r", "");   /* clean display line */
     DISPLAYLEVEL(2, "statistics ... \n");
